@@ -21,7 +21,7 @@ from __future__ import annotations
 import json
 from typing import Any, Optional
 
-from harness.core import Ctx, Driver
+from harness.core import Ctx, Driver, VERIF, LEAN
 from harness import lib_cm as cm
 from harness import lib_cm15 as c15
 
@@ -29,8 +29,10 @@ PROPS = 'XsVerif.Props.C15'
 AUDIT = 'XsVerif.Audit.C15'
 LEAN_TARGETS = ['XsVerif.Props.C15', 'drv_c15']
 LEANCHECK = ['XsVerif.Model.Upa', 'XsVerif.Lemmas.Upa', 'XsVerif.Model.CheckModel', 'XsVerif.Props.C15']
-RULE = ('case = (XSD version, content model). Models: the complete family with ≤2 leaves over {a,b} (+ a wildcard leaf) '
-        'with occurrences from {1,?,*,+,{2,2},{1,2},{0,0}} nested to depth 2, a seeded sample of the 3-leaf family, '
+RULE = ('case = (XSD version, content model). Models: the complete family with ≤2 leaves over {a,b}, sequence/choice '
+        'nested to depth 2, occurrences from {1,?,*,{1,2}} (46k models per version, complete in the thorough tier, sampled '
+        'in the quick tier), seeded members of the same family with all of {1,?,*,+,{2,2},{1,2},{0,0}}, with a wildcard '
+        'leaf, and with 3 leaves, '
         'all element/wildcard leaf pairs over 10 wildcard forms, an Element-Declarations-Consistent family with local '
         'declarations and substitution-group members, seeded random larger models (depth ≤3, xs:all, substitution '
         'heads incl. a transitive member, local declarations, wildcards). '
@@ -48,13 +50,29 @@ ASSUMPTIONS = ['no type alternatives and no open content in the explored models 
 
 KNOWN_ID = 'C15-F0'
 FUEL = 3000
+PINNED_FILE = VERIF / 'corpus' / 'C15' / 'pinned-deviations.json'
+_pinned: Optional[dict] = None
+
+
+def pinned() -> dict:
+    global _pinned
+    if _pinned is None:
+        _pinned = {'1.0': set(), '1.1': set()}
+        if PINNED_FILE.exists():
+            data = json.loads(PINNED_FILE.read_text())
+            _pinned = {v: set(data.get(v, [])) for v in ('1.0', '1.1')}
+    return _pinned
 
 
 def known_match(case: Any, detail: Any) -> Optional[str]:
-    """C15-F0 matches iff the Lean port of the pinned check_model gives the same outcome as the real code."""
-    if isinstance(detail, dict) and detail.get('port_ok') is not None and detail.get('port_ok') == detail.get('impl_ok'):
-        return KNOWN_ID
-    return None
+    """C15-F0 (check_model is a heuristic) matches iff the Lean port of the pinned check_model gives the same
+    outcome as the real code on this model.  Only when the Lean driver is unavailable (`port_ok` is None) the
+    fallback is the recorded list of deviating models of the seed-independent families on the pinned tree."""
+    if not isinstance(detail, dict):
+        return None
+    if detail.get('port_ok') is not None:
+        return KNOWN_ID if detail['port_ok'] == detail.get('impl_ok') else None
+    return KNOWN_ID if case.get('model') in pinned().get(case.get('v'), ()) else None
 
 
 def observe(models: list[tuple], v11: bool) -> tuple[Any, list[Optional[dict]]]:
@@ -97,8 +115,27 @@ def py_overlap(ast: tuple) -> bool:
                for i, x in enumerate(ls) for y in ls[i + 1:])
 
 
+class BuildBroken(Exception):
+    pass
+
+
 def run_batch(ctx: Ctx, drv: Optional[Driver], models: list[tuple], v11: bool, fam: str, strict_p: float) -> None:
-    _, obs = observe(models, v11)
+    try:
+        _, obs = observe(models, v11)
+    except Exception as e:       # noqa: BLE001 - a lax build must not raise, whatever the models are
+        # find one model whose lax build raises on its own (all of them, if the meta-schema is refused)
+        for ast in models[:5]:
+            try:
+                observe([ast], v11)
+            except Exception as e1:       # noqa: BLE001
+                case = {'v': '1.1' if v11 else '1.0', 'model': c15.show(ast), 'ast': ast}
+                ctx.case(case, True, tag='build-raised')
+                ctx.failure('schema construction in lax mode raised instead of recording the model errors', case,
+                            {'exception': type(e1).__name__, 'message': str(e1)[:300]})
+                raise BuildBroken from e1
+        ctx.mismatch('lax build of a batch raised but none of its first models does alone', {'model': c15.show(models[0])},
+                     type(e).__name__, None)
+        return
     reqs, pend = [], []
     for ast, ob in zip(models, obs):
         if ob is None:
@@ -134,9 +171,13 @@ def run_batch(ctx: Ctx, drv: Optional[Driver], models: list[tuple], v11: bool, f
                 continue
             expected = ref and edc_ref
             if impl_ok != expected:
-                ctx.failure('build outcome differs from determinism (reference automaton; Lean oracle and port '
-                            'unavailable, known finding C15-F0 cannot be matched)', case,
-                            {'impl_ok': impl_ok, 'impl_error': ob['kind'], 'expected_ok': expected, 'port_ok': None})
+                detail = {'impl_ok': impl_ok, 'impl_error': ob['kind'], 'expected_ok': expected, 'port_ok': None}
+                fid = known_match(case, detail)
+                if fid:
+                    ctx.known_hit(fid)
+                else:
+                    ctx.failure('build outcome differs from determinism (judged by the reference automaton; Lean '
+                                'oracle and port unavailable)', case, detail)
             continue
         if 'err' in ans:
             ctx.mismatch('driver error', case, None, ans)
@@ -176,46 +217,97 @@ def run_batch(ctx: Ctx, drv: Optional[Driver], models: list[tuple], v11: bool, f
                 ctx.failure('build outcome differs from determinism (UPA and EDC)', case, detail)
 
 
-def families(ctx: Ctx):
-    """yields (family, v11, models)"""
+def families(ctx: Ctx, with_driver: bool = True):
+    """yields (family, v11, models); without the Lean driver only the seed-independent families, whose
+    deviations on the pinned tree are recorded in corpus/C15/pinned-deviations.json"""
     rng = ctx.rng
-    two = list(cm.exhaustive_models(2, ['a', 'b'], depth=2))
-    two_any = [m for m in cm.exhaustive_models(2, ['a'], depth=2, with_any=True) if any(l[0] == 'a' for l in cm.leaves(m))]
-    three = [m for m in cm.exhaustive_models(3, ['a', 'b'], occs=[(1, 1), (0, 1), (0, None), (2, 2), (1, 2)], depth=2)
-             if len(cm.leaves(m)) == 3]
+    core = c15.exh2_core()
+    occ3 = [(1, 1), (0, 1), (0, None), (2, 2), (1, 2)]
     edc = c15.edc_models()
     for v11 in (False, True):
-        yield 'exh2', v11, (rng.sample(two, 1500) if ctx.quick() else two)
-        yield 'exh2-any', v11, rng.sample(two_any, min(len(two_any), ctx.pick(600, 100000)))
-        yield 'exh3-sample', v11, rng.sample(three, min(len(three), ctx.pick(1500, 40000)))
+        yield 'exh2-core', v11, (rng.sample(core, 2000) if ctx.quick() else core)
         wm = c15.wildcard_models(v11)
         yield 'wildcard-pairs', v11, (rng.sample(wm, min(len(wm), 600)) if ctx.quick() else wm)
         yield 'edc', v11, edc
-        yield 'random', v11, [c15.random_model(rng, v11) for _ in range(ctx.pick(1500, 30000))]
+        if not with_driver:
+            continue
+        yield 'exh2-allocc', v11, [c15.small_random(rng, rng.choice([1, 2, 2, 2]), ['a', 'b'], cm.OCC_SMALL)
+                                   for _ in range(ctx.pick(1000, 20000))]
+        yield 'exh2-any', v11, [c15.small_random(rng, 2, ['a'], cm.OCC_SMALL, any_p=0.5) for _ in range(ctx.pick(800, 15000))]
+        yield 'exh3-sample', v11, [c15.small_random(rng, 3, ['a', 'b'], occ3) for _ in range(ctx.pick(2000, 40000))]
+        yield 'random', v11, [c15.random_model(rng, v11) for _ in range(ctx.pick(2000, 40000))]
+
+
+def have_driver() -> bool:
+    return (LEAN / '.lake' / 'build' / 'bin' / 'drv_c15').exists()
 
 
 def run(ctx: Ctx, driver_ok: bool) -> None:
+    import warnings
+    warnings.simplefilter('ignore')        # XMLSchemaTypeTableWarning of the non-strict consistency clause
     drv = Driver('drv_c15') if driver_ok else None
-    for fam, v11, models in families(ctx):
+    if drv is None:
+        ctx.notes.append('Lean driver unavailable: property judged by the reference automaton on the seed-independent '
+                         'families only')
+    for fam, v11, models in families(ctx, drv is not None):
         for i in range(0, len(models), 50):
             if ctx.time_left() < 60:
                 ctx.notes.append(f'time budget reached in family {fam}')
                 return
-            run_batch(ctx, drv, models[i:i + 50], v11, fam, ctx.pick(0.03, 0.01))
+            try:
+                run_batch(ctx, drv, models[i:i + 50], v11, fam, ctx.pick(0.03, 0.01))
+            except BuildBroken:
+                ctx.notes.append('schema construction raises in lax mode: exploration stopped at the first failing input')
+                return
+    if not ctx.quick() and drv is not None:
+        ctx.extra['exhaustive'] = True
+        ctx.extra['exhaustive_scope'] = 'exh2-core, wildcard-pairs and edc families are complete; the others are sampled'
 
 
 def search(ctx: Ctx) -> None:
+    """a proof obligation or the correspondence broke and no failing input was found: widen the exploration
+    (thorough sizes), still with the port as the matcher of the known finding when the driver exists"""
     saved = ctx.tier
     ctx.tier = 'thorough'
     ctx.budget_s += 600
+    drv = Driver('drv_c15') if have_driver() else None
     try:
-        for fam, v11, models in families(ctx):
+        for fam, v11, models in families(ctx, drv is not None):
             for i in range(0, len(models), 50):
                 if ctx.failures or ctx.time_left() < 30:
                     return
-                run_batch(ctx, None, models[i:i + 50], v11, fam, 0.0)
+                try:
+                    run_batch(ctx, drv, models[i:i + 50], v11, fam, 0.0)
+                except RuntimeError:
+                    drv = None
+                except BuildBroken:
+                    return
     finally:
         ctx.tier = saved
+
+
+def make_pinned() -> None:
+    """(maintenance) record the models of the seed-independent families whose build outcome deviates from the
+    reference automaton on the current tree: `/venv/bin/python -m harness.props.c15`"""
+    import warnings
+    warnings.simplefilter('ignore')
+    out: dict[str, list[str]] = {'1.0': [], '1.1': []}
+    ctx = Ctx('C15', 'thorough', 0)
+    for fam, v11, models in families(ctx, False):
+        for i in range(0, len(models), 50):
+            batch = models[i:i + 50]
+            _, obs = observe(batch, v11)
+            for ast, ob in zip(batch, obs):
+                if ob is None or ob['other']:
+                    continue
+                ref = c15.glushkov_upa(ast, v11)
+                if ref is None:
+                    continue
+                if (ob['kind'] is None) != (ref and c15.edc_ref(ast)):
+                    out['1.1' if v11 else '1.0'].append(c15.show(ast))
+    PINNED_FILE.parent.mkdir(parents=True, exist_ok=True)
+    PINNED_FILE.write_text(json.dumps({k: sorted(set(v)) for k, v in out.items()}, indent=0, ensure_ascii=False) + '\n')
+    print({k: len(set(v)) for k, v in out.items()})
 
 
 def tup(x: Any) -> Any:
@@ -231,7 +323,12 @@ def replay(ctx: Ctx, obj: dict) -> int:
         return 0
     ast = tup(case['ast'])
     v11 = case['v'] == '1.1'
-    _, obs = observe([ast], v11)
+    try:
+        _, obs = observe([ast], v11)
+    except Exception as e:       # noqa: BLE001
+        print('implementation: schema construction in lax mode raised', type(e).__name__, str(e)[:300])
+        print('judgement: property violated (a lax build records model errors, it does not raise)')
+        return 1
     ob = obs[0]
     ans = Driver('drv_c15').query([ob['intro'].request(v11, FUEL)])[0]
     so = strict_outcome(ast, v11)
@@ -248,3 +345,7 @@ def replay(ctx: Ctx, obj: dict) -> int:
     print('judgement:', 'property violated' if bad else
           ('deviation reproduced by the pinned port (known finding C15-F0)' if impl_ok != expected else 'property holds'))
     return 1 if bad else 0
+
+
+if __name__ == '__main__':
+    make_pinned()
